@@ -105,6 +105,7 @@ def check_property(pid, tier, keep=False):
     spec = REG["properties"][pid]
     scratch = tempfile.mkdtemp(prefix="verif-%s-" % pid)
     violations, undecided, notes, known_hits = [], [], [], []
+    bounded_runs = []
     cov_functions, rewrite_log, breakdown, trusted, cmds, clauses = [], [], [], {}, [], {}
     cov_types = []
     unref = [0]
@@ -211,6 +212,26 @@ def check_property(pid, tier, keep=False):
                         continue
                     path = write_replay(pid, v, v.get("cmd", ""), b, {"failing_input": v.get("input"), "finder": v})
                     violations.append((v, path, True))
+        # Bounded stand-ins (labelled bounded, never counted as proved): functions the property depends on that are not within the
+        # verifier's reach are exercised on every run - the real compiled code against the executable form of the statement.
+        for bc in spec.get("bounded_checks", []):
+            import finders
+            r = finders.run_crate_finder(bc["unit"], scratch, spec=(bc["host"], bc["file"]))
+            rec = {"function": bc["function"], "bound": bc["bound"], "finder": bc["file"], "cmd": r["cmd"], "summaries": r["summaries"], "built": r["built"], "label": "bounded - not a proof"}
+            bounded_runs.append(rec)
+            if not r["built"]:
+                undecided.append("bounded check of %s did not build: %s" % (bc["function"], (r["build_error"] or "")[-300:]))
+                continue
+            if r["panicked_tests"] and not r["failures"]:
+                undecided.append("bounded check of %s: test harness panicked: %s" % (bc["function"], r["panicked_tests"]))
+            mine = [f for f in r["failures"] if pid in finder_props(f["why"], spec)]
+            if mine:
+                v = {"obligation": "%s/executable-statement (bounded check, function not under a Verus contract): %s" % (bc["function"], mine[0]["why"][:200]), "unit": bc["unit"], "fn": bc["function"], "kind": "runtime",
+                     "message": "the real compiled code fails the executable form of the statement on a concrete input", "clause": mine[0]["why"], "at": mine[0]["case"], "spans": [], "props": [pid]}
+                bb = U.Built()
+                bb.functions = []
+                path = write_replay(pid, v, "finder", bb, {"failing_input": {"case": mine[0]["case"], "why": mine[0]["why"], "rerun": r["cmd"]}, "finder": r})
+                violations.append((v, path, True))
     finally:
         if keep:
             print("scratch kept at", scratch)
@@ -253,7 +274,7 @@ def check_property(pid, tier, keep=False):
             "known_findings_reported": [k["obligation"] for k, _ in known_hits],
             "thorough": thorough_info,
             "not_covered": spec.get("not_covered", []),
-            "bounded_not_proved": spec.get("bounded", []) if tier == "thorough" else [],
+            "bounded_checks_not_proved": bounded_runs,
         },
         "assumptions": spec.get("assumptions", []),
         "wall_s": round(wall, 2),
